@@ -359,6 +359,15 @@ class StrExec:
         if isinstance(n, ast.Compare) and len(n.ops) == 1:
             a, b = self.ev(n.left), self.ev(n.comparators[0])
             op = type(n.ops[0])
+            if op in (ast.Is, ast.IsNot, ast.Eq, ast.NotEq) and isinstance(n.left, ast.Call) and src(n.left.func) == 'type' and len(n.left.args) == 1 \
+                    and isinstance(n.comparators[0], ast.Name) and n.comparators[0].id in ('dict', 'list', 'tuple', 'str', 'int', 'float') \
+                    and n.comparators[0].id not in self.env:
+                # `type(x) is dict` on a value the evaluator holds concretely
+                v_ = self.ev(n.left.args[0])
+                if v_ is UNKNOWN or isinstance(v_, Hole) or isinstance(v_, bool):
+                    return UNKNOWN
+                same = type(v_).__name__ == n.comparators[0].id or (v_ is None and False)
+                return same if op in (ast.Is, ast.Eq) else not same
             if op in (ast.Is, ast.IsNot):
                 if b is None and a is not UNKNOWN:
                     return (a is None) if op is ast.Is else (a is not None)
@@ -571,6 +580,14 @@ class StrExec:
             else:
                 self.env[s.target.id] = cur + v
             return
+        if isinstance(s, ast.AugAssign) and isinstance(s.target, (ast.Subscript, ast.Name)) and isinstance(s.op, (ast.Add, ast.Sub, ast.Mult, ast.Div)) \
+                and not (isinstance(s.target, ast.Name) and isinstance(s.op, ast.Add)):
+            # `x[k] += v`, `x -= v`: the same as the plain assignment of the binary operation (index expressions here have no effects)
+            import copy
+            load = copy.deepcopy(s.target)
+            load.ctx = ast.Load()
+            return self.stmt(ast.copy_location(ast.Assign(targets=[s.target], value=ast.copy_location(ast.BinOp(left=load, op=s.op, right=s.value), s),
+                                                          type_comment=None), s))
         if isinstance(s, ast.If):
             t = self.ev(s.test)
             if t is UNKNOWN:
